@@ -13,7 +13,7 @@ RULE = ('single-inheritance hierarchies (plus unregistered mix-ins) with _yatiml
         'top level, in lists, dicts, attributes and unions; the hook log of the real load (which hook, '
         'called on which class, in which order) is compared with the chain computed from the class model '
         'and with the Lean model\'s trace.  Non-trivial = at least one hook ran.'
-        'Also: the same class objects used by several load / dump functions registering different'
+        ' Also: the same class objects used by several load / dump functions registering different'
         ' subsets of a three-level hierarchy, in random creation and call order; mix-ins'
         ' (registered or not, hooked or not) in either base order on the dump side.')
 ASSUMPTIONS = ['"registered ancestors" = ancestors reachable through registered direct bases (DESIGN 7a)']
